@@ -17,11 +17,21 @@ class SiteOp:
         nz = np.argwhere(np.abs(self.mat) > 1e-14)
         charges = {tuple((sigmaqn[i] - sigmaqn[j]).tolist()) for i, j in nz}
         self.definite = len(charges) <= 1
-        self.charge = np.array(charges.pop() if len(charges) == 1 else [0] * sigmaqn.shape[1], dtype=int)
+        mcharge = np.array(charges.pop(), dtype=int) if len(charges) == 1 else None   # None: zero matrix or indefinite
         if qns is None:
             # put the whole charge on the first word
-            qns = [self.charge.copy()] + [np.zeros_like(self.charge) for _ in words[1:]]
+            c0 = mcharge if mcharge is not None else np.zeros(sigmaqn.shape[1], dtype=int)
+            qns = [c0.copy()] + [np.zeros_like(c0) for _ in words[1:]]
         self.qns = [np.asarray(q, dtype=int).reshape(-1) for q in qns]
+        self.set_qns(self.qns, mcharge)
+
+    def set_qns(self, qns, mcharge=None):
+        """The charge of the site operator is by definition the sum of the labels of its words (what the library
+        sees); for a non-zero matrix it must agree with the charge read off the matrix."""
+        self.qns = [np.asarray(q, dtype=int).reshape(-1) for q in qns]
+        self.charge = sum(self.qns, np.zeros_like(self.qns[0]))
+        if mcharge is not None and self.definite:
+            assert np.array_equal(self.charge, mcharge), (self.words, self.charge, mcharge)
 
     @property
     def symbol(self):
@@ -80,7 +90,7 @@ def site_catalog(site, basis, rng=None, rich=True):
                     single_charge[so.words[0]] = so.charge
             for so in out:
                 if len(so.words) > 1:
-                    so.qns = [single_charge[w].copy() for w in so.words]
+                    so.set_qns([single_charge[w].copy() for w in so.words])
     elif isinstance(basis, ba.BasisSHO):
         for s in SHO_SYMS:
             if basis.nbas == 1 and s in ("x p", "p x"):
